@@ -106,6 +106,24 @@ func producers() []func() (produced, error) {
 			return ws.HTTPUpgrader{Negotiate: e.Negotiate}
 		}, "alpha", pmdOffer, pmdExpect),
 	}
+	// read buffers that are not a pool size class (the pool rounds them up) and header lines
+	// that are longer than the configured size but may still fit the real buffer
+	for _, rb := range []int{300, 1500, 5000} {
+		for _, over := range []int{-40, 40} {
+			rb, over := rb, over
+			out = append(out, func() (produced, error) {
+				var toks []string
+				for n := 0; n < (rb+over-60)/6; n++ {
+					toks = append(toks, fmt.Sprintf("t%04d", n))
+				}
+				proto := strings.Join(append(toks, "beta"), ",")
+				u := ws.Upgrader{ReadBufferSize: rb, Protocol: func(b []byte) bool { return string(b) == "beta" }, Extension: func(o httphead.Option) bool { return string(o.Name) == "bar" }}
+				h, err := runUpgrader(u, request(proto, "foo; a=1, bar; k=vvvv", 'p'))
+				hp := &h
+				return produced{name: fmt.Sprintf("Upgrader/ReadBufferSize=%d/protocol-line=%+d", rb, over), expect: `proto="beta" ext="bar"{"k"="vvvv";}`, live: func() string { return snapHs(*hp) }}, err
+			})
+		}
+	}
 	for _, trailing := range []int{0, 9} {
 		trailing := trailing
 		out = append(out, func() (produced, error) {
@@ -206,6 +224,12 @@ func recyclers() []recycler {
 		{"Upgrade-other-bytes", func(*produced) {
 			runUpgrader(ws.Upgrader{Protocol: func(b []byte) bool { return string(b) == "BETA" }, Extension: func(httphead.Option) bool { return true }},
 				request("ALPHA, BETA, GAMMA", "FOO; A=9; BB=99, BAR", 'Q'))
+		}},
+		{"Upgrade-other-bytes-odd-read-buffers", func(*produced) {
+			for _, rb := range []int{300, 1500, 5000} {
+				u := ws.Upgrader{ReadBufferSize: rb, Protocol: func(b []byte) bool { return string(b) == "BETA" }, Extension: func(httphead.Option) bool { return true }}
+				runUpgrader(u, request(strings.Repeat("ZZZZZ,", rb/6+20)+"BETA", "FOO; A=9; BB=99, BAR", 'Q'))
+			}
 		}},
 		{"Dialer.Upgrade-other-bytes", func(*produced) {
 			d := ws.Dialer{Protocols: []string{"BETA"}, Extensions: []httphead.Option{httphead.NewOption("FOO", nil)}}
